@@ -574,7 +574,8 @@ func vfC08Run(c vfC08Case, ctx *vfCtx) *vfViolation {
 					return fail("op %d: search returned id %d, which was never added", i, r.ID)
 				}
 			}
-			if conf.VecKind == "flat" {
+			// (an IVF store probing all of its clusters is exact as well: same reference)
+			if conf.VecKind == "flat" || conf.VecKind == "ivf" {
 				want, err := ref.NewSearch().WithVector(vfCloneF32(op.Q)).WithK(op.K).Execute()
 				if err != nil {
 					return vfFail("op %d: reference search failed: %v", i, err)
@@ -590,6 +591,25 @@ func vfC08Run(c vfC08Case, ctx *vfCtx) *vfViolation {
 					return fail("op %d: vector-only search (k=%d, %d live documents, %d memtables, %d segments): the store returns ids %v (scores %v), a single in-memory index over the same documents returns %v (scores %v): %s", i, op.K, len(live), vfStoreMemtableCount(st), vfStoreSegmentCount(st), vfIDs64(a), vfSortedScores(a), vfIDs64(b), vfSortedScores(b), why)
 				}
 				ctx.Class("vector_only_differential")
+				// the same query with an autocut: a vector-only query like any other
+				if cut := 1 + i%2; i%3 == 0 {
+					gotC, err1 := st.NewSearch().WithVector(vfCloneF32(op.Q)).WithK(op.K).WithNProbes(1000).WithCutoff(cut).Execute()
+					wantC, err2 := ref.NewSearch().WithVector(vfCloneF32(op.Q)).WithK(op.K).WithCutoff(cut).Execute()
+					if err1 != nil || err2 != nil {
+						return fail("op %d: vector search with cutoff %d failed: %v / %v", i, cut, err1, err2)
+					}
+					a, b := make([]vfHit64, len(gotC)), make([]vfHit64, len(wantC))
+					for j, r := range gotC {
+						a[j] = vfHit64{r.ID, r.Score}
+					}
+					for j, r := range wantC {
+						b[j] = vfHit64{r.ID, r.Score}
+					}
+					if ok, why := vfBatteriesEqual([][]vfHit64{b}, [][]vfHit64{a}); !ok {
+						return fail("op %d: vector-only search with autocut %d (k=%d, %d live documents, %d memtables, %d segments): the store returns ids %v, a single in-memory index over the same documents returns %v: %s", i, cut, op.K, len(live), vfStoreMemtableCount(st), vfStoreSegmentCount(st), vfIDs64(a), vfIDs64(b), why)
+					}
+					ctx.Class("vector_only_differential_with_autocut")
+				}
 			}
 			if addAfterFlush {
 				searchesAfter++
